@@ -78,6 +78,8 @@ func (o *Operations) Delete(name string) error {
 			return err
 		}
 
+		// The header might come from a foreign archive in another format, which can't hold the STFS records
+		hdr.Format = tar.FormatPAX
 		hdr.Size = 0 // Don't try to seek after the record
 		if hdr.FileInfo().Mode().IsRegular() {
 			// The indexer removes the suffix from every regular file's name
